@@ -53,6 +53,27 @@ mod verif_kani {
         kani::cover!(true);
     }
 
+    /// the two spellings of zero (`0` is Positive(0), the literal `-0` is Negative(0)) are one number: equal, not ordered,
+    /// and each stands in the same order relation to every other number
+    #[kani::proof]
+    #[kani::unwind(5)]
+    fn k_zero_spellings() {
+        let pz = NumberValue::Positive(0); let nz = NumberValue::Negative(0);
+        assert!(pz.cmp(&nz) == Ordering::Equal && nz.cmp(&pz) == Ordering::Equal);
+        assert!(pz == nz && nz == pz);
+        assert!(!(nz < pz) && !(pz < nz) && nz <= pz && pz <= nz && nz >= pz && pz >= nz);
+        for kb in 0..3u8 {
+            let b = num_nf(kb);
+            assert!(pz.cmp(&b) == nz.cmp(&b));
+            assert!(b.cmp(&pz) == b.cmp(&nz));
+            assert!((pz == b) == (nz == b));
+            let fb: f64 = (&b).into();
+            if fb > 0.0 { assert!(nz.cmp(&b) == Ordering::Less); }
+            if fb < 0.0 { assert!(nz.cmp(&b) == Ordering::Greater); }
+        }
+        kani::cover!(true);
+    }
+
     #[kani::proof]
     #[kani::unwind(5)]
     fn k_number_order_transitive() {
